@@ -57,6 +57,7 @@ class Stop:
         self.aborted_result_error = None
         self.post_pull = None
         self.use_hooks = True
+        self.idle_signal = False
         if kind == "aclose":
             self.close_after = tape.weighted((3, 3, 2, 1, 1), "close_after")
         elif kind == "abort":
@@ -69,6 +70,11 @@ class Stop:
             when = tape.weighted((2, 2, 2, 2, 1, 1, 1, 1), "abort_when")
             not_before = (0, 1, 2, 3, 5, 8, 13, 21)[when] + tape.draw(3, "abort_jit")
             sim.action(f"abort:{i}", self._abort, not_before=not_before, owner=i)
+        if kind != "abort" and tape.draw(3, "idle_signal") == 0:
+            # an abort signal that is passed but never triggered: every awaitable is raced
+            # against it all the same, and the waiters must not outlive the execution
+            self.controller = AbortController()
+            self.idle_signal = True
 
     def on_stop(self):
         if not self.freeze:
@@ -554,6 +560,8 @@ def run_unit(seed=None, unit=None, tier="quick", stats=None):
         if stats is not None:
             bump(stats, "stops", stop_kind)
             for stp, rr in zip(stops, results):
+                if stp.idle_signal:
+                    bump(stats, "knobs", "abort_signal_passed_never_triggered")
                 if stp.kind == "abort":
                     bump(stats, "faults", "stop:abort_fired" if stp.fired else "stop:abort_not_needed")
                     bump(stats, "faults", "stop:abort_reason_" + stp.reason_kind)
